@@ -275,7 +275,11 @@ func (c *Case) body() string {
 	case "CW":
 		return fmt.Sprintf("CW %d %s %d %s %s %s %s %d", c.BufSz, common.Hex(p.DG), p.SZ, b2s(p.Comb), c.Lim, encScript(p.Script), c.WMode, c.WAt)
 	case "VR":
-		return fmt.Sprintf("VR %s %d %s %s %s", common.Hex(p.DG), p.SZ, b2s(p.Comb), encScript(p.Script), strings.Join(c.Ops, ","))
+		l := fmt.Sprintf("VR %s %d %s %s %s", common.Hex(p.DG), p.SZ, b2s(p.Comb), encScript(p.Script), strings.Join(c.Ops, ","))
+		if c.Lim != "" && c.Lim != "-" {
+			l += " " + c.Lim
+		}
+		return l
 	case "PF":
 		var sb strings.Builder
 		fmt.Fprintf(&sb, "PF %s %d", c.Kind, len(c.Pushes))
@@ -350,6 +354,10 @@ func decodeBody(body string) *Case {
 	case "VR":
 		c.Pushes = []Push{{DG: common.UnHex(f[1]), SZ: atoi(f[2]), Comb: f[3] == "1", Script: decScript(f[4])}}
 		c.Ops = strings.Split(f[5], ",")
+		c.Lim = "-"
+		if len(f) > 6 {
+			c.Lim = f[6]
+		}
 	case "PF":
 		c.Kind = f[1]
 		n := int(atoi(f[2]))
@@ -646,7 +654,10 @@ func runCW(id string, c *Case) string {
 func runVR(id string, c *Case) string {
 	p := c.Pushes[0]
 	r := newReader(p)
-	vr := content.NewVerifyReader(r, descOf(p))
+	if c.Lim == "" {
+		c.Lim = "-"
+	}
+	vr := content.NewVerifyReader(source(r, c.Lim), descOf(p))
 	var got []byte
 	var outs []string
 	st := streamOf(p.Script)
@@ -659,7 +670,7 @@ func runVR(id string, c *Case) string {
 					fail(id, "negative-size", fmt.Sprintf("Verify accepted Size %d", p.SZ), c)
 				case !matches(got, p.DG, p.SZ):
 					fail(id, "verify-accepted-bad", fmt.Sprintf("Verify() = nil after %d bytes for %s size %d", len(got), p.DG, p.SZ), c)
-				case !bytes.Equal(st, got):
+				case c.Lim == "-" && !bytes.Equal(st, got):
 					fail(id, "verify-trailing-accepted", fmt.Sprintf("reader holds %d bytes, %d were read, Verify() = nil", len(st), len(got)), c)
 				}
 			}
@@ -1601,7 +1612,9 @@ func genSingle(r *common.Rand, op string) *Case {
 	case "CB":
 		c.BufSz = common.Pick(r, []int{1, 1, 2, 3, 5, 8, 16, 64, 4096, 100000})
 	case "VR":
-		c.Lim = "-"
+		if c.Lim != "-" && r.Chance(1, 2) { // half of the limited ones stay limited
+			c.Lim = "-"
+		}
 		n := 1 + r.Intn(8)
 		for i := 0; i < n; i++ {
 			if r.Chance(1, 4) {
